@@ -22,7 +22,12 @@ def showRead (r : Except ParseErr Header) : String :=
 
 /-! ### `run`: one message through the queue under a history of attempts and restarts
 
-`C10 run <hist> <hdr> <body> S=.. J=<i:j.i:j|-> from=<i> to=<i.i> orc=<i:j.i:j|-> f=<utf8 rtls tro quar dts> auth=<0|1|2> late=<0|1>`
+`C10 run <hist> <hdr> <body> S=.. J=<i:j.i:j|-> from=<i> to=<i.i> orc=<i:j.i:j|-> f=<utf8 rtls tro quar dts> auth=<0|1|2> late=<0|1> dsn=<0|1|2> X=<i.i|-> peer=<-|i.i/hist>`
+
+* dsn: 0 = no bounce pipeline, 1 = a bounce pipeline, 2 = one that refuses the report at the body stage (the
+  same for the queue); X: the strings for which `address.SelectIDNA <the message's SMTPUTF8 flag>` fails;
+* peer: a SECOND queue fed by the same source with the same header, body and metadata, its own recipients
+  and its own history (output: the two observations joined by " || ");
 
 * hist: steps joined by "."; `r` = restart (as first step: crash between `Body` and `Commit`);
   `R` (first step only) = restart after a `Commit` that dispatched nothing; `a<P|A><letters>` = attempt against a partial /
@@ -68,21 +73,25 @@ def letterAt (orig : List Nat) (letters : List Char) (r : Nat) : Char :=
   | none => '?'
 
 /-- the target's answers and `tryDelivery`'s classification for one scripted attempt -/
-def mkStep (orig : List Nat) (partialD : Bool) (letters : List Char) : Step :=
+def mkStep (orig : List Nat) (partialD : Bool) (letters : List Char) (bounce : Bool) (unrep : List Nat) : Step :=
   let l := letterAt orig letters
+  let dsn : Option Dsn := if bounce then
+      some { failed := fun to => to.filter fun r => l r == 'p' || l r == '?', reportable := fun _ s => !unrep.contains s }
+    else none
   let accepted (to : List Nat) := to.filter fun r => l r == 'o' || l r == 't'
   let bodyFail (to : List Nat) := (accepted to).any fun r => l r == 't'
   .attempt (fun to => !(accepted to).isEmpty)
     (fun to => to.filter fun r =>
       l r == 'q' || (if partialD then l r == 't' else (l r == 'o' || l r == 't') && bodyFail to))
+    dsn
 
-def parseStep (orig : List Nat) (s : String) : Option Step :=
+def parseStep (orig : List Nat) (bounce : Bool) (unrep : List Nat) (s : String) : Option Step :=
   match s.toList with
   | ['r'] => some .restart
   | 'a' :: k :: letters =>
     if (k == 'P' || k == 'A') && letters.length == orig.length &&
         letters.all (fun c => c == 'o' || c == 't' || c == 'q' || c == 'p') then
-      some (mkStep orig (k == 'P') letters)
+      some (mkStep orig (k == 'P') letters bounce unrep)
     else none
   | _ => none
 
@@ -114,11 +123,34 @@ def showEv : Ev → Option String
   | .readError => some "readerr"
   | .wrote _ => none
   | .removed => none
+  | .report r =>
+    let w := writeHeader r.hdr
+    some s!"rep[to={r.to} u={bit r.utf8} hdr={w.length}.{digest w}]"
+  | .reportFailed => some "rep[failed]"
 
 def allVisible : Vis := fun _ => true
 
-def handleRun (hist hdr body : String) (rest : List String) : Option String := do
-  let [sS, sJ, sFrom, sTo, sOrc, sF, sAuth, _sLate] := rest | none
+/-- one queue: history `hist` for recipients `to` of the accepted message -/
+def runOne (co : Nat → Nat) (h : Header) (b : Bytes) (mm : MsgMeta) (sender : Nat) (to : List Nat)
+    (bounce : Bool) (unrep : List Nat) (hist : String) : Option String := do
+  -- `R` (first step only): restart after `Commit` was answered by a queue that was already stopping
+  -- (nothing dispatched, the message is in the spool only) - for the spool the same as `r`
+  let hsteps := match hist.splitOn "." with
+    | "R" :: rest => "r" :: rest
+    | l => l
+  let steps ← hsteps.mapM (parseStep to bounce unrep)
+  let a : Accepted := { hdr := h, body := b, qmeta := { msgMeta := mm, sender := sender, to := to } }
+  let (st, evs) := run allVisible co a steps
+  let fin := match st.disk with
+    | none => "end=removed"
+    | some d => s!"end=pending:{showIdxs d.metaFile.to}"
+  let leak := if (docs evs).all (fun d => (secretsOf d).isEmpty) then "0" else "1"
+  pure (" ".intercalate (evs.filterMap showEv ++ [fin, s!"leak={leak}"]))
+
+def handleRun (hist hdr body : String) (rest0 : List String) : Option String := do
+  -- op lines recorded before the bounce pipeline / second queue were added: no bounce pipeline, one queue
+  let rest := if rest0.length == 8 then rest0 ++ ["dsn=0", "X=-", "peer=-"] else rest0
+  let [sS, sJ, sFrom, sTo, sOrc, sF, sAuth, _sLate, sDsn, sX, sPeer] := rest | none
   let _ ← kv "S" sS
   let jt ← parsePairs (← kv "J" sJ)
   let co (x : Nat) : Nat := match jt.find? (fun p => p.1 == x) with | some p => p.2 | none => x
@@ -129,23 +161,22 @@ def handleRun (hist hdr body : String) (rest : List String) : Option String := d
   guard (f.length == 5 && f.all (fun c => c == '0' || c == '1'))
   let fb (i : Nat) : Bool := f.getD i '0' == '1'
   let auth ← (← kv "auth" sAuth).toNat?
+  let dsn ← (← kv "dsn" sDsn).toNat?
+  guard (dsn ≤ 2)
+  let unrep ← parseIdxs (← kv "X" sX)
+  let peer ← kv "peer" sPeer
   let h ← parseHdr hdr
   let b ← parseBody body
-  -- `R` (first step only): restart after `Commit` was answered by a queue that was already stopping
-  -- (nothing dispatched, the message is in the spool only) - for the spool the same as `r`
-  let hsteps := match hist.splitOn "." with
-    | "R" :: rest => "r" :: rest
-    | l => l
-  let steps ← hsteps.mapM (parseStep to)
   let conn : Option Conn := if auth == 0 then none else if auth == 1 then some ⟨0, 0⟩ else some ⟨1000001, 1000002⟩
   let mm : MsgMeta := ⟨1000000, sender, fb 4, fb 3, orc, fb 0, fb 1, conn, fb 2⟩
-  let a : Accepted := { hdr := h, body := b, qmeta := { msgMeta := mm, sender := sender, to := to } }
-  let (st, evs) := run allVisible co a steps
-  let fin := match st.disk with
-    | none => "end=removed"
-    | some d => s!"end=pending:{showIdxs d.metaFile.to}"
-  let leak := if (docs evs).all (fun d => (secretsOf d).isEmpty) then "0" else "1"
-  pure (" ".intercalate (evs.filterMap showEv ++ [fin, s!"leak={leak}"]))
+  let obsA ← runOne co h b mm sender to (dsn != 0) unrep hist
+  if peer == "-" then pure obsA else
+  match peer.splitOn "/" with
+  | [pTo, pHist] => do
+    let toB ← parseIdxs pTo
+    let obsB ← runOne co h b mm sender toB (dsn != 0) unrep pHist
+    pure (obsA ++ " || " ++ obsB)
+  | _ => none
 
 def handle : List String → String
   | ["parse", blob] =>
